@@ -2,6 +2,7 @@
 # usage: try_mutation.sh <patch.diff> <tier> <ID> [<ID>...]
 # Applies the patch to a scratch worktree of /repo (never to /repo itself), runs the given
 # checks against it (VERIF_REPO), prints their last lines and removes the worktree.
+# VERIF_HOME selects another copy of /verif (mutation_matrix.sh runs from a snapshot of HEAD).
 set -u
 patch=$1; tier=$2; shift 2
 wt=$(mktemp -d /tmp/mutrun-XXXXXX)
@@ -11,7 +12,7 @@ if ! git -C "$wt" apply "$patch"; then echo "PATCH DOES NOT APPLY"; git -C /repo
 mkdir -p /tmp/mutrun-evidence
 for id in "$@"; do
   echo "=== $id on $(basename $(dirname $patch))/$(basename $patch)"
-  VERIF_REPO=$wt VERIF_EVIDENCE_DIR=/tmp/mutrun-evidence python3 /verif/check.py $id --tier $tier 2>/dev/null | grep -E "^(VIOLATION|KNOWN|UNCONFIRMED|INCONCLUSIVE|OK|ENGINE|\.\.\.)" | head -12
+  VERIF_REPO=$wt VERIF_EVIDENCE_DIR=/tmp/mutrun-evidence python3 ${VERIF_HOME:-/verif}/check.py $id --tier $tier 2>/dev/null | grep -E "^(VIOLATION|KNOWN|UNCONFIRMED|INCONCLUSIVE|OK|ENGINE|\.\.\.)" | head -12
   echo "exit=$?"
 done
 git -C /repo worktree remove --force "$wt"
